@@ -1,7 +1,7 @@
 import StoneVerif.Lemmas.FeCompileReg
 set_option linter.unusedSimpArgs false
 /-!
-`_resolve_type` of the compile model against the specification-level reading of a reference: when the model resolves
+`_resolve_type` of the compileCore model against the specification-level reading of a reference: when the model resolves
 a reference, the result is what the reference denotes (whatever aliases were set at that moment).
 -/
 namespace StoneVerif.FeCompile.L
